@@ -374,6 +374,12 @@ def nbtLen (named : Bool) (bs : Bytes) : Option Nat :=
       | none => none
       | some rest => some (bs.length - rest.length)
 
+/-- `util.ReadCompoundTag`: `ReadBinaryTag`, then the root type must be TAG_Compound -/
+def nbtCompoundLen (named : Bool) (bs : Bytes) : Option Nat :=
+  match bs with
+  | t :: _ => if t = 10 then nbtLen named bs else none
+  | [] => none
+
 /-- `crypto.ReadPlayerKey`: int64 expiry, ReadBytes key, ReadBytesLen 4096 signature (the key must also
     parse as a PKIX RSA public key — not modelled, hence schemas using it are not `exact`) -/
 def playerKeyLen (bs : Bytes) : Option Nat :=
